@@ -82,6 +82,12 @@ func corrC13(outDir string, seed uint64, tier string, replay string) *report {
 				saltBefore := append([]byte(nil), saltBuf...)
 				a := keyArgs{tag: v.tag, pw: pw, salt: salt, nums: v.nums, hasOpts: v.hasOpts, prefix: v.prefix, optNum: v.optNum}
 				call := func() ([]byte, error) { return keyOf(a) }
+				// the reference for the buffer-reuse step below is taken first, from fresh slices, before the buffers are used
+				altPw := []byte(r.str(n, "abcxyzABC0189\xe9\x80"))
+				altSalt := []byte(r.str(v.saltLen, v.alpha))
+				fa := a
+				fa.pw, fa.salt = append([]byte(nil), altPw...), append([]byte(nil), altSalt...)
+				kFresh, errFresh := keyOf(fa)
 				k1, err := call()
 				if err != nil {
 					rep.fail(fmt.Sprint(v.name, " len=", n), "a key", err.Error(), "Key rejects an in-domain argument")
@@ -127,14 +133,9 @@ func corrC13(outDir string, seed uint64, tier string, replay string) *report {
 				// the caller reuses its buffers for other contents of the same lengths: the result must be the one a call
 				// with fresh slices of those contents gets (equal arguments are equal bytes, not equal addresses)
 				if spare == 0 || spare == 3 {
-					altPw := []byte(r.str(n, "abcxyzABC0189\xe9\x80"))
-					altSalt := []byte(r.str(v.saltLen, v.alpha))
 					copy(pw, altPw)
 					copy(salt, altSalt)
 					kReuse, errReuse := call()
-					fa := a
-					fa.pw, fa.salt = append([]byte(nil), altPw...), append([]byte(nil), altSalt...)
-					kFresh, errFresh := keyOf(fa)
 					if !bytes.Equal(kReuse, kFresh) || (errReuse == nil) != (errFresh == nil) {
 						rep.fail(map[string]interface{}{"scheme": v.name, "password_len": n, "first_password": string(pwContent), "first_salt": string(saltContent),
 							"then_in_the_same_buffers_password": string(altPw), "salt": string(altSalt)},
